@@ -15,3 +15,8 @@ META = {
     "explanation": "XorProvider.encrypt's loop is verified with an inductive invariant over the real AST (bit-vector XOR); AES against the "
                    "assumed library contract; inversion is a lemma over the two contracts (props/lemmas/c08.py).",
 }
+
+try:
+    from props.C08_rac import rac, replay   # bounded run-time contract driver (stand-in + replay harness)
+except ImportError:   # pragma: no cover
+    pass
